@@ -11,6 +11,11 @@
 //     depend on line numbers) and a purely syntactic classification of the loop body;
 //   - every `range` over a slice that is known to be extended in map-iteration order
 //     (procbuilder.Allopcodes, BasmInstance.matchers/matchersOps), same identity and class;
+//     the shape "append the keys to a fresh local slice, library-sort it before any other use"
+//     (also slices.Sorted(maps.Keys(m)), slices.Collect(maps.Keys(m)) + library sort) gets the
+//     class "sortedkeys" and a generic key: it is accepted by a rule, not by a per-function row;
+//     maps.Keys / maps.Values / maps.All calls are map walks too;
+//   - every sort with a custom comparator (kind sortcmp), with the shape of the comparator;
 //   - every use of the clock (time.Now/Since/Until), of math/rand and crypto/rand, of
 //     temp-file / pid / hostname sources, and every `go` statement.
 //
@@ -73,7 +78,7 @@ type listed struct {
 
 // Site is one row of the generated table.
 type Site struct {
-	Kind  string `json:"kind"`  // "range" | "ordered" | "clock" | "rand" | "go" | "env"
+	Kind  string `json:"kind"`  // "range" | "ordered" | "sortcmp" | "clock" | "rand" | "go" | "env"
 	File  string `json:"file"`  // path relative to the repo root
 	Func  string `json:"func"`  // enclosing function, "(*T).m" for methods, "<pkg>" at package level
 	Expr  string `json:"expr"`  // ranged expression / callee
@@ -91,7 +96,13 @@ func (s Site) ID() string {
 // recomputes the hash of every hand-written row when it is compiled.
 func (s Site) Key() uint64 {
 	h := uint64(0xcbf29ce484222325)
-	for _, b := range []byte(s.ID() + "#" + s.Class) {
+	text := s.ID() + "#" + s.Class
+	if s.Class == "sortedkeys" {
+		// the generic rule: these sites are accepted by BMV.Sched.Expect.covered without a table row
+		// (theorem sorted_after_det), wherever they live; they all carry the key of "*#sortedkeys"
+		text = "*#sortedkeys"
+	}
+	for _, b := range []byte(text) {
 		h ^= uint64(b)
 		h *= 0x100000001b3
 	}
@@ -137,6 +148,7 @@ type walker struct {
 	fn    string // enclosing function
 	body  *ast.BlockStmt
 	sites *[]Site
+	stack []ast.Node // ancestors of the node being inspected (innermost last)
 }
 
 func recvName(fd *ast.FuncDecl) string {
@@ -189,6 +201,7 @@ var exitFuncs = map[string]bool{
 
 type classifier struct {
 	w     *walker
+	label string // label of the loop itself ("" if none): `continue label` is then an ordinary continue
 	rs    *ast.RangeStmt
 	flags map[string]bool
 	apps  map[types.Object]bool // outer variables appended to in the body
@@ -419,8 +432,9 @@ func (c *classifier) classify() string {
 			if x.Tok == token.BREAK && (x.Label != nil || brk == 0) {
 				c.flags["early"] = true
 			}
-			if x.Tok == token.CONTINUE && x.Label != nil {
-				// continue of an outer loop leaves this loop early
+			if x.Tok == token.CONTINUE && x.Label != nil && x.Label.Name != c.label {
+				// continue of an OUTER loop leaves this loop early (a continue to the loop's own label
+				// is an ordinary continue)
 				c.flags["early"] = true
 			}
 		case *ast.SendStmt:
@@ -718,6 +732,244 @@ func (w *walker) add(kind, expr string, pos token.Pos, class string) {
 		Line: w.fset.Position(pos).Line})
 }
 
+// ---- the generic, intrinsically order-insensitive shape: collect, then library sort ----
+
+var libSorts = map[string]bool{"sort.Strings": true, "sort.Ints": true, "sort.Float64s": true, "slices.Sort": true}
+
+func orderedBasic(t types.Type) bool {
+	b, ok := t.Underlying().(*types.Basic)
+	return ok && b.Info()&(types.IsString|types.IsInteger|types.IsFloat) != 0
+}
+
+func (w *walker) pkgCall(call *ast.CallExpr) string {
+	fun := call.Fun
+	if ix, ok := fun.(*ast.IndexExpr); ok { // explicit instantiation
+		fun = ix.X
+	}
+	sel, ok := fun.(*ast.SelectorExpr)
+	if !ok {
+		return ""
+	}
+	id, ok := sel.X.(*ast.Ident)
+	if !ok {
+		return ""
+	}
+	pn, ok := w.info.ObjectOf(id).(*types.PkgName)
+	if !ok {
+		return ""
+	}
+	return pn.Imported().Path() + "." + sel.Sel.Name
+}
+
+// freshLocalThenSorted: `x` is a variable declared inside the enclosing function with a slice type
+// whose elements are strings / integers / floats, it is not mentioned between its declaration and
+// `after` except at `fill` (the statement that puts the map's keys into it), and the FIRST statement
+// that mentions it afterwards, in the same block as `after`, is `sort.Strings(x)` / `sort.Ints(x)` /
+// `sort.Float64s(x)` / `slices.Sort(x)` — a library sort by the natural total order of the elements.
+// Whatever order the keys arrived in, the list every later use sees is the same (theorem
+// BMV.Props.C07.sorted_after_det).
+func (w *walker) freshLocalThenSorted(x *ast.Ident, fill ast.Node, after ast.Stmt, block []ast.Stmt) bool {
+	obj, ok := w.info.ObjectOf(x).(*types.Var)
+	if !ok || obj.IsField() || w.body == nil || obj.Pos() < w.body.Pos() || obj.Pos() > w.body.End() {
+		return false
+	}
+	sl, ok := obj.Type().Underlying().(*types.Slice)
+	if !ok || !orderedBasic(sl.Elem()) {
+		return false
+	}
+	// no mention between the declaration and the fill statement, except inside the fill statement
+	// and the declaration statement itself (`x := make([]string, 0, len(m))`)
+	clean := true
+	ast.Inspect(w.body, func(n ast.Node) bool {
+		if n == nil {
+			return true
+		}
+		if n == fill {
+			return false
+		}
+		if as, ok := n.(*ast.AssignStmt); ok && as.Tok == token.DEFINE {
+			for _, l := range as.Lhs {
+				if id, ok := l.(*ast.Ident); ok && w.info.ObjectOf(id) == obj {
+					// the defining statement: the right-hand side must not be derived from anything ordered
+					for _, r := range as.Rhs {
+						switch e := r.(type) {
+						case *ast.CallExpr:
+							if f, ok := e.Fun.(*ast.Ident); !ok || f.Name != "make" {
+								if w.pkgCall(e) != "slices.Collect" {
+									clean = false
+								}
+							}
+						case *ast.CompositeLit:
+							if len(e.Elts) != 0 {
+								clean = false
+							}
+						default:
+							clean = false
+						}
+					}
+					return false
+				}
+			}
+		}
+		if id, ok := n.(*ast.Ident); ok && w.info.ObjectOf(id) == obj && id.Pos() != obj.Pos() && id.Pos() < fill.Pos() {
+			clean = false
+		}
+		return true
+	})
+	if !clean || block == nil {
+		return false
+	}
+	// first later statement of the same block that mentions x
+	seen := false
+	for _, st := range block {
+		if st == after {
+			seen = true
+			continue
+		}
+		if !seen {
+			continue
+		}
+		mentions := false
+		ast.Inspect(st, func(n ast.Node) bool {
+			if id, ok := n.(*ast.Ident); ok && w.info.ObjectOf(id) == obj {
+				mentions = true
+			}
+			return true
+		})
+		if !mentions {
+			continue
+		}
+		es, ok := st.(*ast.ExprStmt)
+		if !ok {
+			return false
+		}
+		call, ok := es.X.(*ast.CallExpr)
+		if !ok || len(call.Args) != 1 || !libSorts[w.pkgCall(call)] {
+			return false
+		}
+		arg, ok := call.Args[0].(*ast.Ident)
+		return ok && w.info.ObjectOf(arg) == obj
+	}
+	return false
+}
+
+// stmtList: the statement list a statement sits in (block, case clause, select clause)
+func stmtList(n ast.Node) []ast.Stmt {
+	switch x := n.(type) {
+	case *ast.BlockStmt:
+		return x.List
+	case *ast.CaseClause:
+		return x.Body
+	case *ast.CommClause:
+		return x.Body
+	}
+	return nil
+}
+
+// sortedKeysLoop: `for k[, v] := range m { x = append(x, k) }` (or `append(x, v)`) into a fresh local
+// slice that is library-sorted before any other use.
+func (w *walker) sortedKeysLoop(rs *ast.RangeStmt) bool {
+	if rs.Tok != token.DEFINE || len(rs.Body.List) != 1 {
+		return false
+	}
+	as, ok := rs.Body.List[0].(*ast.AssignStmt)
+	if !ok || as.Tok != token.ASSIGN || len(as.Lhs) != 1 || len(as.Rhs) != 1 {
+		return false
+	}
+	x, ok := as.Lhs[0].(*ast.Ident)
+	if !ok {
+		return false
+	}
+	call, ok := as.Rhs[0].(*ast.CallExpr)
+	if !ok || len(call.Args) != 2 {
+		return false
+	}
+	if f, ok := call.Fun.(*ast.Ident); !ok || f.Name != "append" {
+		return false
+	}
+	if _, isB := w.info.ObjectOf(call.Fun.(*ast.Ident)).(*types.Builtin); !isB {
+		return false
+	}
+	if a0, ok := call.Args[0].(*ast.Ident); !ok || w.info.ObjectOf(a0) != w.info.ObjectOf(x) {
+		return false
+	}
+	el, ok := call.Args[1].(*ast.Ident)
+	if !ok {
+		return false
+	}
+	isKV := false
+	for _, kv := range []ast.Expr{rs.Key, rs.Value} {
+		if id, ok := kv.(*ast.Ident); ok && id.Name != "_" && w.info.ObjectOf(id) == w.info.ObjectOf(el) {
+			isKV = true
+		}
+	}
+	if !isKV {
+		return false
+	}
+	var after ast.Stmt = rs
+	par := w.parent(0)
+	if ls, ok := par.(*ast.LabeledStmt); ok {
+		after = ls
+		par = w.parent(1)
+	}
+	return w.freshLocalThenSorted(x, rs, after, stmtList(par))
+}
+
+// mapSeqCall: "maps.Keys" / "maps.Values" / "maps.All" (std or golang.org/x/exp) applied to a map, else ""
+func (w *walker) mapSeqCall(e ast.Expr) string {
+	call, ok := e.(*ast.CallExpr)
+	if !ok {
+		return ""
+	}
+	switch pc := w.pkgCall(call); pc {
+	case "maps.Keys", "maps.Values", "maps.All", "golang.org/x/exp/maps.Keys", "golang.org/x/exp/maps.Values":
+		return pc
+	}
+	return ""
+}
+
+// mapSeqSite: every maps.Keys / maps.Values / maps.All call is a map walk (kind "range"):
+//
+//	slices.Sorted(maps.Keys(m))                                   -> class sortedkeys (generic rule)
+//	x := slices.Collect(maps.Keys(m)); sort.Strings(x) / slices.Sort(x) before any other use -> sortedkeys
+//	for k := range maps.Keys(m) { … }                             -> classified like a map range (see inspect)
+//	slices.Collect(maps.Keys(m)) otherwise, x/exp maps.Keys(m) (a slice in map order), anything else
+//	                                                              -> class collect / seq: needs a row
+func (w *walker) mapSeqSite(call *ast.CallExpr) {
+	pc := w.mapSeqCall(call)
+	if pc == "" {
+		return
+	}
+	expr := types.ExprString(call)
+	if rs, ok := w.parent(0).(*ast.RangeStmt); ok && rs.X == call {
+		return // recorded by the RangeStmt case with the class of its body
+	}
+	class := "seq"
+	if outer, ok := w.parent(0).(*ast.CallExpr); ok {
+		switch w.pkgCall(outer) {
+		case "slices.Sorted":
+			if t := w.info.TypeOf(outer); t != nil {
+				if sl, ok := t.Underlying().(*types.Slice); ok && orderedBasic(sl.Elem()) {
+					class = "sortedkeys"
+				}
+			}
+		case "slices.Collect":
+			class = "collect"
+			// x := slices.Collect(maps.Keys(m)) followed by a library sort of x
+			if as, ok := w.parent(1).(*ast.AssignStmt); ok && len(as.Lhs) == 1 && len(as.Rhs) == 1 && as.Rhs[0] == outer {
+				if x, ok := as.Lhs[0].(*ast.Ident); ok {
+					if block := stmtList(w.parent(2)); block != nil && as.Tok == token.DEFINE && w.freshLocalThenSorted(x, as, as, block) {
+						class = "sortedkeys"
+					}
+				}
+			}
+		case "slices.SortedFunc", "slices.SortedStableFunc":
+			class = "sortedfunc" // custom comparator: reviewed by hand like every sortcmp site
+		}
+	}
+	w.add("range", expr, call.Pos(), class)
+}
+
 // orderTainted: slices that other code extends while ranging over a map, so that their element
 // order differs from process to process: procbuilder.Allopcodes (dynamically created opcodes are
 // appended by EventuallyCreateInstruction in the order basm's dynamicalInstructions pass walks the
@@ -746,20 +998,131 @@ func (w *walker) orderTainted(e ast.Expr) bool {
 	return false
 }
 
+// sortCall records every sort with a CUSTOM comparator (kind "sortcmp"): sort.Slice / SliceStable /
+// slices.SortFunc / SortStableFunc (function literal or named less function) and sort.Sort / Stable
+// (Less method of the argument's type).  A sort canonicalises the order of what came out of a map
+// only if its comparator is a total order on the elements: a comparator that ignores part of the
+// element leaves "equal" elements in their incoming (map) order.  Totality cannot be decided
+// syntactically, so every such sort is inventoried and classified by hand; the class records the
+// shape of the comparator: direct (one `return a OP b` on elements / fields, no calls), calls (keys
+// derived by function calls), multi (several returns: a chain), loop, iface (Less method elsewhere),
+// named (less function defined elsewhere).
+func (w *walker) sortCall(call *ast.CallExpr) {
+	sel, ok := call.Fun.(*ast.SelectorExpr)
+	if !ok {
+		return
+	}
+	id, ok := sel.X.(*ast.Ident)
+	if !ok {
+		return
+	}
+	pn, ok := w.info.ObjectOf(id).(*types.PkgName)
+	if !ok {
+		return
+	}
+	p, name := pn.Imported().Path(), sel.Sel.Name
+	var less ast.Expr
+	switch {
+	case p == "sort" && (name == "Slice" || name == "SliceStable") && len(call.Args) == 2:
+		less = call.Args[1]
+	case p == "slices" && (name == "SortFunc" || name == "SortStableFunc") && len(call.Args) == 2:
+		less = call.Args[1]
+	case p == "sort" && (name == "Sort" || name == "Stable") && len(call.Args) == 1:
+		w.add("sortcmp", p+"."+name+"("+types.ExprString(call.Args[0])+")", call.Pos(), "iface")
+		return
+	default:
+		return
+	}
+	flags := map[string]bool{}
+	if fl, ok := less.(*ast.FuncLit); ok {
+		returns, calls, loops := 0, 0, 0
+		ast.Inspect(fl.Body, func(n ast.Node) bool {
+			switch x := n.(type) {
+			case *ast.ReturnStmt:
+				returns++
+			case *ast.ForStmt, *ast.RangeStmt:
+				loops++
+			case *ast.CallExpr:
+				if tv, ok := w.info.Types[x.Fun]; ok && tv.IsType() {
+					return true
+				}
+				if f, ok := x.Fun.(*ast.Ident); ok {
+					if _, b := w.info.ObjectOf(f).(*types.Builtin); b {
+						return true
+					}
+				}
+				calls++
+			}
+			return true
+		})
+		if calls > 0 {
+			flags["calls"] = true
+		}
+		if returns > 1 {
+			flags["multi"] = true
+		}
+		if loops > 0 {
+			flags["loop"] = true
+		}
+		if len(flags) == 0 {
+			flags["direct"] = true
+		}
+	} else {
+		flags["named"] = true
+	}
+	fl := []string{}
+	for f := range flags {
+		fl = append(fl, f)
+	}
+	sort.Strings(fl)
+	w.add("sortcmp", p+"."+name+"("+types.ExprString(call.Args[0])+")", call.Pos(), strings.Join(fl, "+"))
+}
+
+func (w *walker) parent(k int) ast.Node {
+	if len(w.stack) > k {
+		return w.stack[len(w.stack)-1-k]
+	}
+	return nil
+}
+
+// ownLabel: the label of `lbl: for … range …`, "" if the loop has none
+func (w *walker) ownLabel(rs *ast.RangeStmt) string {
+	if ls, ok := w.parent(0).(*ast.LabeledStmt); ok && ls.Stmt == rs {
+		return ls.Label.Name
+	}
+	return ""
+}
+
 func (w *walker) inspect(n ast.Node) bool {
+	if n == nil {
+		w.stack = w.stack[:len(w.stack)-1]
+		return true
+	}
+	defer func() { w.stack = append(w.stack, n) }()
 	switch x := n.(type) {
 	case *ast.RangeStmt:
 		if t := w.info.TypeOf(x.X); t != nil {
 			if _, ok := t.Underlying().(*types.Map); ok {
-				c := &classifier{w: w, rs: x}
+				c := &classifier{w: w, rs: x, label: w.ownLabel(x)}
+				cls := c.classify()
+				if w.sortedKeysLoop(x) {
+					cls = "sortedkeys"
+				}
+				w.add("range", types.ExprString(x.X), x.Pos(), cls)
+			} else if w.mapSeqCall(x.X) != "" {
+				// `for k := range maps.Keys(m)`: a map walk through an iterator
+				c := &classifier{w: w, rs: x, label: w.ownLabel(x)}
 				w.add("range", types.ExprString(x.X), x.Pos(), c.classify())
 			} else if w.orderTainted(x.X) {
 				// a slice whose tail is appended in map-iteration order elsewhere: walking it is as
 				// order sensitive as walking the map (kind "ordered")
-				c := &classifier{w: w, rs: x}
+				c := &classifier{w: w, rs: x, label: w.ownLabel(x)}
 				w.add("ordered", types.ExprString(x.X), x.Pos(), c.classify())
 			}
 		}
+	case *ast.CallExpr:
+		w.sortCall(x)
+		w.mapSeqSite(x)
 	case *ast.GoStmt:
 		w.add("go", types.ExprString(x.Call.Fun), x.Pos(), "")
 	case *ast.SelectorExpr:
@@ -870,7 +1233,7 @@ func extract(repo string) ([]Site, []string) {
 	kept := sites[:0]
 	for i := range sites {
 		k := sites[i].Kind + "|" + sites[i].File + "|" + sites[i].Func + "|" + sites[i].Expr
-		if sites[i].Kind != "range" && sites[i].Kind != "ordered" && cnt[k] > 0 {
+		if sites[i].Kind != "range" && sites[i].Kind != "ordered" && sites[i].Kind != "sortcmp" && cnt[k] > 0 {
 			continue // clock / rand / go / env uses are recorded once per function and callee
 		}
 		sites[i].Ord = cnt[k]
